@@ -62,7 +62,9 @@ func ratBody() func(*engine.X) {
 		an := nums[x.Choose("a.num", len(nums))]
 		ad := dens[x.Choose("a.den", len(dens))]
 		ar := new(big.Rat).SetFrac(an, ad)
-		da := func(op string) func() string { return func() string { return fmt.Sprintf("Rat(%s).%s", showRat(an, ad), op) } }
+		da := func(op string) func() string {
+			return func() string { return fmt.Sprintf("Rat(%s).%s", showRat(an, ad), op) }
+		}
 		// unary
 		guard(x, "num/q/unary", da("unary"), func() {
 			a := mkRat(an, ad)
